@@ -74,7 +74,7 @@ PROPS = {
     "C19": {
         "required_theorems": ["c19_read_regs_agrees", "c19_read_regs_error", "c19_read_bits_agrees", "c19_write_reg_then_read",
                               "c19_rtu_roundtrip", "c19_rtu_rejects", "c19_tcp_roundtrip", "c19_tcp_rejects",
-                              "c19_uint32_roundtrip", "c19_regs_uint32_roundtrip", "c19_signed_roundtrip", "c19_signed_roundtrip'",
+                              "c19_uint32_roundtrip", "c19_regs_uint32_roundtrip", "c19_signed_roundtrip", "c19_signed_roundtrip_inv",
                               "gen_framing_pinned"],
         "n": {"quick": 10000, "thorough": 100000},
         "thorough_seeds": 3,
